@@ -430,11 +430,26 @@ def unary(op, p):
 
 
 # Booleans are 0/1-valued polynomials over idempotent atoms.
+def _single_bool(d):
+    """d == s*b + k with b one idempotent atom, s = +-1, k a constant: returns (s, b, k)"""
+    nc = [(m, c) for m, c in d.terms.items() if m != ()]
+    if len(nc) == 1:
+        m, cf = nc[0]
+        if len(m) == 1 and m[0][1] == 1 and _ATOM_LIST[m[0][0]].idem and cf in (1, -1):
+            return int(cf), Poly.of_atom(_ATOM_LIST[m[0][0]]), d.terms.get((), Fraction(0))
+    return None
+
+
 def b_lt(p, q):
     p, q = as_poly(p), as_poly(q)
     d = p - q
     if d.is_const():
         return ONE if d.const_value() < 0 else ZERO
+    sb = _single_bool(d)
+    if sb is not None:          # value at b=0 is k, at b=1 is s+k
+        s, b, k = sb
+        v0, v1 = (ONE if k < 0 else ZERO), (ONE if s + k < 0 else ZERO)
+        return b * v1 + (ONE - b) * v0
     return fn("lt", d)          # lt(d) means d < 0
 
 
@@ -443,6 +458,11 @@ def b_eq(p, q):
     d = p - q
     if d.is_const():
         return ONE if d.const_value() == 0 else ZERO
+    sb = _single_bool(d)
+    if sb is not None:
+        s_, b, k = sb
+        v0, v1 = (ONE if k == 0 else ZERO), (ONE if s_ + k == 0 else ZERO)
+        return b * v1 + (ONE - b) * v0
     # canonical sign
     k = d.key()
     if k[0][1] < 0:
@@ -588,3 +608,69 @@ def rebuild_fn(op, args):
     if op in ("abs", "sign", "exp", "log"):
         return unary(op, args[0])
     return fn(op, *args)
+
+
+# ------------------------------------------------------------------ symbolic differentiation
+
+def diff(p: Poly, s) -> Poly:
+    """d p / d s for an input symbol s (Poly of one 'sym' atom, or its name); chain rule through
+    opaque applications: d/ds F_j_d[D](args) = sum_l F_j_d[D+l](args) * d args_l / ds"""
+    if isinstance(s, Poly):
+        (m, _), = s.terms.items()
+        sid = m[0][0]
+    else:
+        sid = atom(("sym", s)).id
+    memo = {}
+
+    def d_atom(i):
+        r = memo.get(i)
+        if r is not None:
+            return r
+        a = _ATOM_LIST[i]
+        k = a.key
+        if i == sid:
+            r = ONE
+        elif k[0] in ("sym", "bool"):
+            r = ZERO
+        elif k[0] == "app":
+            _, fname, j, derivs, args = k
+            r = ZERO
+            for l, ak in enumerate(args):
+                da = d_poly(poly_from_key(ak))
+                if not da.is_zero():
+                    r = r + app(fname, j, derivs + (l,), [poly_from_key(x) for x in args]) * da
+        else:
+            op = k[1]
+            args = [poly_from_key(x) for x in k[2] if isinstance(x, tuple)]
+            da = d_poly(args[0]) if args else ZERO
+            if da.is_zero() and all(d_poly(x).is_zero() for x in args):
+                r = ZERO
+            elif op == "inv":
+                r = -(Poly.of_atom(a) * Poly.of_atom(a)) * da
+            elif op == "sqrt":
+                r = da * inv(Poly.of_atom(a) * Poly.const(2))
+            elif op == "log":
+                r = da * inv(args[0])
+            elif op == "exp":
+                r = da * Poly.of_atom(a)
+            elif op == "abs":
+                r = da * unary("sign", args[0])
+            elif op in ("lt", "eq", "isnan", "sign"):
+                r = ZERO
+            else:
+                raise NotImplementedError(f"derivative of fn atom {op}")
+        memo[i] = r
+        return r
+
+    def d_poly(q):
+        out = ZERO
+        for m, cf in q.terms.items():
+            for idx, (i, e) in enumerate(m):
+                da = d_atom(i)
+                if da.is_zero():
+                    continue
+                rest = m[:idx] + (((i, e - 1),) if e != 1 else ()) + m[idx + 1:]
+                out = out + Poly({tuple(sorted(rest)): cf * e}) * da
+        return out
+
+    return d_poly(p)
